@@ -97,6 +97,7 @@ func (s *segment) removeGTE(i uint64) error {
 	n := int(i - s.prevIndex - 1)
 	if n < s.n {
 		s.setOffset(n, 0)
+		verifPoint("removeGTE:lowered", s.file.Name(), n)
 		s.n, s.size, s.synced = n, s.offset(n+1), -1
 	}
 	return s.sync()
@@ -111,10 +112,13 @@ func (s *segment) sync() error {
 		if err := s.file.Sync(); err != nil {
 			return err
 		}
+		verifPoint("sync:msync1", s.file.Name())
 		s.setOffset(s.n, 0)
+		verifPoint("sync:header", s.file.Name(), s.n)
 		if err := s.file.Sync(); err != nil {
 			return err
 		}
+		verifPoint("sync:msync2", s.file.Name())
 		s.synced = s.n
 	}
 	return nil
